@@ -35,6 +35,16 @@ Definition float_of_bits (b : N) : float :=
     match fr with Zpos p => SF2Prim (S754_finite s p (-1074)%Z) | _ => if s then neg_zero else zero end
   else match (fr + 4503599627370496)%Z with Zpos p => SF2Prim (S754_finite s p (ex - 1075)%Z) | _ => nan end.
 
+(** fast powers (square and multiply); [Z.pow] iterates the multiplication exponent-many times *)
+Fixpoint pow_pos_fast (b : Z) (p : positive) : Z :=
+  match p with
+  | xH => b
+  | xO p' => let t := pow_pos_fast b p' in t * t
+  | xI p' => let t := pow_pos_fast b p' in b * (t * t)
+  end.
+Definition pow10 (k : Z) : Z := match k with Zpos p => pow_pos_fast 10 p | Z0 => 1 | Zneg _ => 0 end.
+Definition pow2 (k : Z) : Z := match k with Zneg _ => 0 | _ => Z.shiftl 1 k end.
+
 (** ** decimal -> double: the nearest double of  (-1)^neg * m * 10^e10, ties to even *)
 Definition dec_to_sf (neg : bool) (m : N) (e10 : Z) : spec_float :=
   match m with
@@ -43,11 +53,11 @@ Definition dec_to_sf (neg : bool) (m : N) (e10 : Z) : spec_float :=
     let digits := Z.log2 (Zpos p) / 3 + 1 in          (* >= number of decimal digits *)
     if 330 <? e10 + (Z.log2 (Zpos p) * 3 / 10) then S754_infinity neg      (* certainly >= 2^1024 *)
     else if e10 + digits <? -345 then S754_zero neg                        (* certainly < 2^-1075 *)
-    else if 0 <=? e10 then binary_round prec emax neg (p * Z.to_pos (10 ^ e10)) 0
+    else if 0 <=? e10 then binary_round prec emax neg (p * Z.to_pos (pow10 e10)) 0
     else
-      let den := 10 ^ (- e10) in
+      let den := pow10 (- e10) in
       let s := Z.max 0 (66 + Z.log2 den - Z.log2 (Zpos p)) in
-      let num := Zpos p * 2 ^ s in
+      let num := Zpos p * pow2 s in
       let q := num / den in
       let sticky := if num mod den =? 0 then 0 else 1 in
       match 2 * q + sticky with
@@ -70,14 +80,14 @@ Definition literal_float (int_ frac : text) : float :=
 
 (* compare a * 10^p with b * 2^q  (a, b >= 0) *)
 Definition cmp_scaled (a p b q : Z) : comparison :=
-  let l := a * (if 0 <=? p then 10 ^ p else 1) * (if q <? 0 then 2 ^ (- q) else 1) in
-  let r := b * (if 0 <=? q then 2 ^ q else 1) * (if p <? 0 then 10 ^ (- p) else 1) in
+  let l := a * (if 0 <=? p then pow10 p else 1) * (if q <? 0 then pow2 (- q) else 1) in
+  let r := b * (if 0 <=? q then pow2 q else 1) * (if p <? 0 then pow10 (- p) else 1) in
   l ?= r.
 
 (* floor (b * 2^q / 10^p) *)
 Definition div_scaled (b q p : Z) : Z :=
-  let num := b * (if 0 <=? q then 2 ^ q else 1) * (if p <? 0 then 10 ^ (- p) else 1) in
-  let den := (if q <? 0 then 2 ^ (- q) else 1) * (if 0 <=? p then 10 ^ p else 1) in
+  let num := b * (if 0 <=? q then pow2 q else 1) * (if p <? 0 then pow10 (- p) else 1) in
+  let den := (if q <? 0 then pow2 (- q) else 1) * (if 0 <=? p then pow10 p else 1) in
   num / den.
 
 (* floor(log10 (m * 2^e)) for m > 0 *)
